@@ -10,11 +10,11 @@ A = "bounded-exhaustive enumeration of a closed small-scope input universe again
 checks = {
  # id: (engine, category, text, note, technique, design_ref)
  "C10": ("engine-B", "model_checking",
-   "all interleavings with at most k deviations of 2-3 goroutines calling EndPoint.Send on one real endpoint, with and without read fragmentation, four handler filters on the receiving endpoint, concurrent handler registration, frames already waiting while EndPointFinalizer builds the endpoint, a frame of exactly MaxPayloadSize bytes, senders after sends that failed on other connections of the process, twelve handlers on the receiving endpoint (table beyond its 10 initial slots), senders mixing message types (event, post, reply, call, error, capability), an AddHandler consumer with a backlog when the handler ends by Close / peer close / RemoveHandler, two senders through the library's own stream wrapper against a reader that starts late (a write deadline, if the code sets one, may expire mid-buffer); every execution checked for intact frames, exactly-once delivery, per-sender order, per-filter subsequence and a single arrival order",
+   "all interleavings with at most k deviations of 2-3 goroutines calling EndPoint.Send on one real endpoint, with and without read fragmentation, four handler filters on the receiving endpoint, concurrent handler registration, frames already waiting while EndPointFinalizer builds the endpoint, a frame of exactly MaxPayloadSize bytes, senders after sends that failed on other connections of the process, twelve handlers on the receiving endpoint (table beyond its 10 initial slots), senders mixing message types (event, post, reply, call, error, capability), an AddHandler consumer with a backlog when the handler ends by Close / peer close / RemoveHandler, two senders through the library's own stream wrapper against a reader that starts late (a write deadline, if the code sets one, may expire mid-buffer), RemoveHandler + MakeHandler re-using a slot while frames selected by the old handler are dispatched; every frame carries a non-zero flags byte; every execution checked for intact frames, exactly-once delivery, per-sender order, per-filter subsequence and a single arrival order",
    "one in-memory stream with the net.Conn contract (atomic Write) stands for the five transports; the kernel/TLS transports themselves are not model-checked",
    B, "DESIGN.md section 4, C10"),
  "C11": ("engine-B", "model_checking",
-   "for every I/O operation index of the client stream x 8 fault kinds (read error, EOF, data+EOF, corrupted header, short write, peer close, local close, a sticky timeout-class net.Error whose Temporary() is true - not coming to rest is a violation) - enumerated exhaustively as free choice points - and every schedule with at most k deviations: all calls return, own reply or error, a reply read before the failure reaches its caller, later calls fail, subscription channels closed, disconnect callbacks exactly once; a write stalled on a finite send buffer at close time; a subscription cancelled during the loss; fourteen handlers at the moment of the loss; a subscription whose queue is flooded at the moment of the loss",
+   "for every I/O operation index of the client stream x 8 fault kinds (read error, EOF, data+EOF, corrupted header, short write, peer close, local close, a sticky timeout-class net.Error whose Temporary() is true - not coming to rest is a violation) - enumerated exhaustively as free choice points - and every schedule with at most k deviations: all calls return, own reply or error, a reply read before the failure reaches its caller, later calls fail, subscription channels closed, disconnect callbacks exactly once; a write stalled on a finite send buffer at close time; a subscription cancelled during the loss; fourteen handlers at the moment of the loss; a subscription whose queue is flooded at the moment of the loss; Server.Terminate with a socket client and an in-process client (Server.Client()) each holding a call in flight, a subscription and a disconnect callback",
    "faults are injected through the public net.Stream interface of an in-memory stream; time is logical (bounded time = before quiescence)",
    B + " + exhaustive fault-point enumeration", "DESIGN.md section 4, C11"),
  "C17": ("engine-B", "model_checking",
